@@ -1,1 +1,2 @@
 pub mod loopmc;
+pub mod segmc;
